@@ -14,6 +14,8 @@ def run(rep, tier, seed):
     lines2 = domhist.gen(seed + 33, tier, opts={"ops": ["bounds", "bounds", "diseq", "diseq", "assign", "arith", "copy", "join", "q_entails"],
                                                 "maxvars": 3, "minops": 4, "maxops": 12, "corpus": False},
                          n=(500 if tier == "quick" else 15000))
+    import random
+    lines2 = domhist.gen_diseq_boundary(random.Random(seed + 34), 150 if tier == "quick" else 3000) + lines2
     vlib.run_stream(rep, "itv-disequalities", "itvdom", "itvdom", lines2, oracle=domhist.oracle_dense,
                     nontrivial=domhist.nontrivial, key=lambda l: "history")
     import domall
